@@ -5,6 +5,9 @@ HERE = os.path.dirname(os.path.dirname(os.path.abspath(__file__)))
 ALL = ["C%02d" % i for i in range(1, 21)]
 HYD_NOTE = "Trusted: TLC; Dec.tla exact decimal arithmetic (self-tested by setup); recorded floats are logged at their shortest round-trip decimal; tolerances derived from the solver criterion max|residual| < 1e-6 with factor 2; non-converged runs are counted, not asserted."
 CLAIMED = {
+ "C13": dict(cat="translation_validation", tech="translation validation: to_dict -> JSON -> from_dict -> to_dict on random API-built models; structural equality of canonicalised dictionaries decided by TLC (Same.tla)",
+   text="Each subject is a random feature-rich model (vertices on links of every type, tags, initial quality, several demands per junction, curves, a source, leaks, controls, a rule with AND/OR, ELSE and priority). Three round trips per subject (JSON text, in-memory dictionary, append to an empty model); TLC compares the canonical dictionaries (floats by repr) after exactly the normalisation the property names.",
+   note="Trusted: TLC; the canonicaliser (floats by repr, tuples as lists).", ref="DESIGN.md section 5 C13"),
  "C16": dict(cat="fault_enumeration", tech="environment action SolveFails in WntrSim.tla (TLC: invariant FailStop, liveness Terminates under weak fairness); enumeration of a failing solve at every index against the real run_sim, each outcome judged by TLC (FailStop.tla)",
    text="The specification treats the nonlinear solve as environment and adds the action SolveFails; TLC checks for every failure index that the loop stops there with the fault-free prefix reported and that every behaviour terminates. Against the code, for time-family schedules and random networks, every call index k at the solver boundary is made to fail (convergence_error False/True, with/without backup solver) plus natural failures (MAXITER too small, trial limit); TLC checks per run: termination, RuntimeError iff convergence_error, otherwise warning + error_code, strictly increasing index on the report grid, one column per element, finite values, nothing at or after the failed step and the rows before it equal to the clean run.",
    note="Failures are injected by wrapping wntr.sim.core._solver_helper from the harness (no source hook). Termination is observed under a 120 s alarm per run.", ref="DESIGN.md section 5 C16"),
